@@ -5,7 +5,7 @@ import common
 from common import qlit, slit
 
 PRE = ('From Coq Require Import ZArith QArith List String.\nRequire Import WV.model.C09Line WV.model.C09Judge '
-       'WV.model.C09Align.\nImport ListNotations.\nOpen Scope string_scope.\nOpen Scope Z_scope.\n')
+       'WV.model.C09Align WV.model.C09Float.\nImport ListNotations.\nOpen Scope string_scope.\nOpen Scope Z_scope.\n')
 WS = ['normal', 'nowrap', 'pre', 'pre-wrap', 'pre-line']
 OW = ['normal', 'anywhere', 'break-word']
 LET = 'abcdefgh'
@@ -648,7 +648,7 @@ def judge_nested(case, blocks):
 
 
 # ----------------------------------------------------------------------------- lines next to stacked floats
-def gen_float_case(rng, idx):
+def gen_float_case(rng, idx, allow_inline=True, allow_mid=True):
     """1..3 floats (left/right, clear) whose heights are exact multiples of the line height or one pixel off, before
     the text of the block (block-level floats or floated spans at the very start of the paragraph), sometimes one
     more float met in the middle of the text"""
@@ -657,7 +657,7 @@ def gen_float_case(rng, idx):
     em = rng.choice([6, 8, 10, 12, 15, 20, 30])
     width = fs * em + rng.choice([0, 0, 0, 1, -1])
     ta = rng.choice(['left', 'left', 'left', 'start', 'right', 'justify'])
-    inline = rng.random() < 0.3
+    inline = rng.random() < 0.3 and allow_inline
     floats = []
     for k in range(rng.choice([1, 2, 2, 3])):
         side = rng.choice(['left', 'left', 'right'])
@@ -674,7 +674,7 @@ def gen_float_case(rng, idx):
         f['mt'], f['mb'], tag) for f in floats)
     mid = None
     text = ' '.join(words)
-    if rng.random() < 0.1 and len(words) > 3:
+    if rng.random() < 0.1 and len(words) > 3 and allow_mid:
         j = rng.randint(1, len(words) - 1)
         mid = dict(side=rng.choice(['left', 'right']), w=rng.choice([fs, 3 * fs]), h=rng.choice([lh, 2 * lh + 1]), at=j)
         text = ' '.join(words[:j]) + ' <span style="float:%s;width:%dpx;height:%dpx"></span>' % (mid['side'], mid['w'], mid['h']) \
@@ -861,7 +861,7 @@ def classify_render(case, paras, clause, detail):
 def check(run):
     rng = random.Random(run.seed * 7919 + 9)
     thorough = run.tier == 'thorough'
-    common.prove(run, 'C09', ['model/C09Line.vo', 'model/C09Spec.vo', 'model/C09Judge.vo', 'model/C09Align.vo'])
+    common.prove(run, 'C09', ['model/C09Line.vo', 'model/C09Spec.vo', 'model/C09Judge.vo', 'model/C09Align.vo', 'model/C09Float.vo'])
     run.trusted += ['Coq 8.16.1 kernel (coqc); vm_compute for the cases.v evaluation',
                     'harness/p_c09.py: case generators, Coq printers, the Python judge of the render monitor',
                     'harness/impl_c09.py: direct-call stubs (real computed style + four-attribute context; stub boxes '
@@ -887,6 +887,8 @@ def check(run):
     stream_floats(run, rng, 5000 if thorough else 900)
     t5 = time.time()
     run.stream_info('float-lines', wall_s=round(t5 - t4, 1))
+    stream_avoid(run, rng, 6000 if thorough else 1200)
+    run.stream_info('avoid-direct', wall_s=round(time.time() - t5, 1))
     run.stream_info('pango-G', wall_s=round(t1 - t0, 1))
     run.stream_info('sfl-direct', wall_s=round(t2 - t1, 1))
     run.stream_info('align-direct', wall_s=round(t3 - t2, 1))
@@ -1075,8 +1077,73 @@ def stream_render(run, rng, n):
                          'stacking y+h; distinct = style combination')
 
 
+def gen_avoid_case(rng):
+    """float stubs stacked on a grid of half line heights so that edges touch exactly; a line box stub"""
+    lh = rng.choice([10, 10, 20, 7])
+    cbx, cbw = Fraction(rng.choice([0, 0, 15])), Fraction(rng.choice([60, 100, 150, 200]))
+    shapes = []
+    for _ in range(rng.choice([0, 1, 1, 2, 2, 3, 4])):
+        side = rng.choice(['left', 'left', 'right'])
+        mw = Fraction(rng.choice([10, 20, 50, int(cbw) // 2, int(cbw)]))
+        y = Fraction(rng.randint(-2, 8) * lh, 2) + rng.choice([0, 0, 0, 0, 1, -1, Fraction(1, 3)])
+        mh = Fraction(rng.randint(1, 6) * lh, 2) + rng.choice([0, 0, 0, 1, -1])
+        if rng.random() < 0.03:
+            mh = Fraction(0)
+        x = cbx if side == 'left' else cbx + cbw - mw
+        if rng.random() < 0.2 and shapes:
+            x = x + (10 if side == 'left' else -10)
+        shapes.append([side, str(x), str(y), str(mw), str(max(mh, 0))])
+    bh = Fraction(rng.choice([lh, lh, lh, lh // 2 or 1, 2 * lh, 0 if rng.random() < 0.1 else lh]))
+    return dict(shapes=shapes, cbx=str(cbx), cbw=str(cbw), dir=rng.choice(['ltr', 'ltr', 'rtl']),
+                bw=str(Fraction(rng.choice([0, 10, 30, 55, 90, 120, int(cbw)]))), bh=str(bh),
+                y=str(Fraction(rng.randint(-1, 8) * lh, 2)))
+
+
+def coq_avoid_case(c, o):
+    return '([%s], %s, %s, %s, %s, %s, %s, (%s, %s, %s))' % (
+        '; '.join('(%s, %s, %s, %s, %s)' % (cbool(s[0] == 'left'), qlit(Fraction(s[1])), qlit(Fraction(s[2])),
+                                            qlit(Fraction(s[3])), qlit(Fraction(s[4]))) for s in c['shapes']),
+        qlit(Fraction(c['cbx'])), qlit(Fraction(c['cbw'])), cbool(c['dir'] == 'rtl'), qlit(Fraction(c['bw'])),
+        qlit(Fraction(c['bh'])), qlit(Fraction(c['y'])), qlit(Fraction(o[0])), qlit(Fraction(o[1])), qlit(Fraction(o[2])))
+
+
+def stream_avoid(run, rng, n):
+    cases = [gen_avoid_case(rng) for _ in range(n)]
+    outs = common.run_impl('impl_c09', 'avoid', cases, chunksize=64)
+    coq, kept = [], []
+    for c, (st, o) in zip(cases, outs):
+        if st != 'ok':
+            run.fail('avoid_collisions raised', {'stream': 'avoid-direct', 'case': c, 'outcome': o}, signature='avoid-raise')
+            continue
+        coq.append(coq_avoid_case(c, o)); kept.append((c, o))
+    try:
+        masks = common.eval_cases('c09avoid', PRE, 'avoid_case', coq, 'avoid_judge')
+    except RuntimeError as exc:
+        run.oblige('corr:avoid-direct', False, str(exc))
+        return
+    mism = [(c, o) for (c, o), m in zip(kept, masks) if m & 1]
+    run.oblige('corr:avoid-direct(avoid_collisions model vs float.py on a LineBox stub between float stubs)', not mism,
+               'first disagreements: %s' % mism[:2])
+    for (c, o), m in zip(kept, masks):
+        if m & 2:
+            run.fail('the interval left to the line box is not the one left by the floats that share vertical extent with '
+                     'it (half-open boundaries)', {'stream': 'avoid-direct', 'case': c, 'impl_output': o})
+        if m & 4:
+            run.fail('avoid_collisions moved the line box upwards', {'stream': 'avoid-direct', 'case': c, 'impl_output': o})
+    run.count('avoid-direct', len(kept), [(len(c['shapes']), c['dir'], c['bh'], c['bw'], c['y'], c['cbw']) for c, _ in kept],
+              samples=[{'case': kept[0][0], 'impl': kept[0][1]}])
+    run.stream_info('avoid-direct', rule='0..4 float stubs (left/right) whose tops and heights are multiples of half a line '
+                    'height (+-1, +1/3), so that edges coincide exactly with the edges of the line box stub; box widths '
+                    'from 0 to the container width; ltr/rtl; exact rationals')
+
+
 def stream_floats(run, rng, n):
-    cases = [gen_float_case(rng, i) for i in range(n)]
+    # inputs whose known misbehaviour is an open finding are generated only once that finding is registered for this
+    # property (known_findings.json, `property` or `also`), so that its signature is matched and not a new alarm
+    sigs = {k.get('signature') for k in run.known}
+    allow_mid = {'inline-float-text-not-shifted', 'inline-float-realigned-to-line-top'} <= sigs
+    allow_inline = 'inline-float-placed-below-line-top-still-overlaps-line' in sigs
+    cases = [gen_float_case(rng, i, allow_inline, allow_mid) for i in range(n)]
     outs = common.run_impl('impl_c09', 'render_lines', [{'html': c['html']} for c in cases], limit=60, chunksize=8)
     known, nlines, kinds = {}, 0, set()
     for c, (st, o) in zip(cases, outs):
@@ -1100,6 +1167,7 @@ def stream_floats(run, rng, n):
         kinds.add((c['nfloats'], c['ta'], c['inline'], c['mid'] is not None, c['lh'] == c['fs'], c['width']))
     run.count('float-lines', len(cases), kinds, samples=[cases[0]['html'][:600]])
     run.stream_info('float-lines', lines=nlines, known_mechanisms_hit=known, judged_in='Python (judge_floats)',
+                    floats_in_mid_line_generated=allow_mid, floated_spans_at_paragraph_start_generated=allow_inline,
                     rule='1..3 left/right floats with clear none/side/both, heights = 1..3 line heights and one pixel '
                          'above/below, vertical margins, as block-level boxes before the text or as floated spans at the '
                          'start of the paragraph (30%), one more float in the middle of the text (10%); per line: the free '
@@ -1130,6 +1198,15 @@ def replay(data):
         bad = judge_floats(case, o)
         print('replay:', bad[:5])
         return 1 if bad else 0
+    if stream == 'avoid-direct':
+        c = d['case']
+        (st, o), = common.run_impl('impl_c09', 'avoid', [c])
+        if st != 'ok':
+            print('replay: raised', o)
+            return 1
+        m = common.eval_cases('c09replay', PRE, 'avoid_case', [coq_avoid_case(c, o)], 'avoid_judge')
+        print('implementation ->', o, 'judge mask (1 model<>impl, 2 interval, 4 moved up):', m)
+        return 1 if m[0] else 0
     if stream == 'sfl-direct':
         c = d['case']
         (st, o), = common.run_impl('impl_c09', 'sfl', [c])
